@@ -536,6 +536,56 @@ def singleton_programs():
 # random well-typed programs (seeded)
 # =============================================================================================
 # =============================================================================================
+# function literals that use the variables of their surroundings (lexical scoping, by reference)
+# =============================================================================================
+def closure_programs():
+    progs = []
+
+    def add(variant, fns, globs=(), **feats):
+        progs.append(Program("clo_%s_%d" % (variant, len(progs)), fns, globs, feats=dict(feats, family="closure", variant=variant)))
+
+    def main(*stmts):
+        return {"main": Fn([], Block(list(stmts)))}
+
+    # read, no parameters, called where it was made; the captured variable at several positions among the locals
+    for pos in range(4):
+        others = [Let("a%d" % i, I(100 + i)) for i in range(3)]
+        stmts = others[:pos] + [Let("x", I(5))] + others[pos:]
+        stmts += [Let("f", FnLit([], Block([], Bin("+", V("x"), I(1))), "int")), Print(CallV(V("f")), V("a0"), V("a1"), V("a2"), V("x"))]
+        add("read-direct", main(*stmts), pos=pos)
+    # the same with a parameter / a local of its own
+    add("read-param", main(Let("a", I(1)), Let("x", I(5)), Let("f", FnLit(["p"], Block([], Bin("+", V("x"), V("p"))), "int")),
+                           Print(CallV(V("f"), I(2)), V("a"), V("x"))))
+    add("read-local", main(Let("a", I(1)), Let("x", I(5)), Let("f", FnLit([], Block([Let("t", I(3))], Bin("+", V("x"), V("t"))), "int")),
+                           Print(CallV(V("f")), V("a"), V("x"))))
+    # writes are seen outside, later writes outside are seen inside
+    add("write", main(Let("a", I(1)), Let("x", I(5)), Let("g", FnLit([], Block([Expr(Asg(V("x"), Bin("+", V("x"), I(1))))]))),
+                      Expr(CallV(V("g"))), Expr(CallV(V("g"))), Print(V("x"), V("a")), Expr(Asg(V("x"), I(50))), Expr(CallV(V("g"))), Print(V("x"))))
+    add("list", main(Let("l", List(I(1))), Let("h", FnLit([], Block([Expr(MCall(V("l"), "push", I(2)))]))),
+                     Expr(CallV(V("h"))), Expr(CallV(V("h"))), Print(V("l"))))
+    # the literal outlives the call that made it; two instances have separate variables
+    mk = Fn([], Block([Let("c", I(10))], FnLit([], Block([Expr(Asg(V("c"), I(1), "+="))], V("c")), "int")), "fn() -> int")
+    add("escape", {"mk": mk, "main": Fn([], Block([Let("k", Call("mk")), Print(CallV(V("k")), CallV(V("k"))),
+                                                   Let("j", Call("mk")), Print(CallV(V("j")), CallV(V("k")))]))})
+    # called from another function, which has locals of its own
+    apply = Fn(["f", "v"], Block([Let("shadow", I(100))], Bin("+", CallV(V("f"), V("v")), V("shadow"))), "int", ["fn(a: int) -> int", "int"])
+    add("passed", {"apply": apply, "main": Fn([], Block([Let("base", I(7)), Print(Call("apply", FnLit(["a"], Block([], Bin("+", V("a"), V("base"))), "int"), I(1)))]))})
+    # made in a loop, using the loop's locals
+    add("loop", main(For("i", Range(I(0), I(3)), Block([Let("loc", Bin("*", V("i"), I(10))), Let("g", FnLit([], Block([], Bin("+", V("loc"), I(1))), "int")),
+                                                         Print(CallV(V("g")))]))))
+    # a literal inside a literal
+    add("nested", main(Let("y", I(1)), Let("h", FnLit([], Block([], FnLit([], Block([], Bin("+", V("y"), I(1))), "int")), "fn() -> int")),
+                       Let("hh", CallV(V("h"))), Print(CallV(V("hh")))))
+    # shadowing after the literal was made: the literal keeps the binding it saw
+    add("shadow-later", main(Let("x", I(1)), Let("f", FnLit([], Block([], V("x")), "int")), Let("x", I(2)), Print(CallV(V("f")), V("x"))))
+    add("shadow-inner", main(Let("y", I(1)), Let("g", FnLit([], Block([], V("y")), "int")), Expr(Block([Let("y", I(5)), Print(CallV(V("g")), V("y"))]))))
+    # globals are not captured, they are shared
+    add("global", {"main": Fn([], Block([Let("f", FnLit([], Block([Expr(Asg(V("cnt"), I(1), "+="))]))), Expr(CallV(V("f"))), Expr(CallV(V("f"))), Print(V("cnt"))]))},
+        globs=[("cnt", I(0))])
+    return progs
+
+
+# =============================================================================================
 # C14: programs whose observable behaviour would depend on map iteration order if any part of the
 # tool chain let it through: objects with several fields, many locals, many functions, many globals
 # =============================================================================================
